@@ -218,6 +218,11 @@ neg_run, neg_replay = docprop.make(ID, judge_negative, lambda m, v: False,
 
 
 def replay(case):
+    if case.get('wellformed'):
+        plain, pos, err = docprop.run_source(case['src'])
+        if err or MARK in plain:
+            return Violation('diagnostic-on-well-formed-document', case, {'plain': plain, 'stderr': err})
+        return None
     if 'fault_case' in case:
         try:
             check(docprop.untuple(case['fault_case']), FLAGS)
@@ -227,8 +232,21 @@ def replay(case):
     return neg_replay(case)
 
 
+WELLFORMED = ['na\\"{\\i}ve', "R\\'{\\i}o", '\\^\\i le', '\\v{\\j}', '\\"{\\i}', "\\'\\j", '\\c{}', "\\'{}", '\\H{\\zzunknown}', '\\~{ }']
+
+
 def run_shard(ctx):
     neg_run(ctx)
+    # accent macros applied to dotless i / j and to arguments that expand to nothing are well-formed LaTeX:
+    # neither diagnostic nor mark (the rendered character is not claimed)
+    if ctx.shard == 0:
+        for k, a in enumerate(WELLFORMED):
+            for pre, post in (('Waabq ', ' Waacq\n'), ('', ''), ('\\section{', '}\n'), ('\\footnote{x ', '} y')):
+                src = pre + a + post
+                plain, pos, err = docprop.run_source(src)
+                if err or MARK in plain:
+                    ctx.violation(Violation('diagnostic-on-well-formed-document', {'src': src, 'wellformed': True}, {'plain': plain, 'stderr': err}))
+                ctx.stats.case(key=('wf', src), classes=['well-formed accent forms'])
 
     def positive(case):
         try:
